@@ -4,8 +4,9 @@
 (* API-level state only: the limit, which jobs were handed to the queue (and by which call), *)
 (* how often each job function was invoked, which jobs are inside their function, which have *)
 (* returned, and what WaitIdle was promised.  Events:                                        *)
-(*   new(limit, jobs)        NewConcurrentQueue(limit, jobs...) returned                     *)
-(*   call enq(c, jobs)       client c calls Enqueue(jobs...)                                 *)
+(*   new(limit, jobs, nils)  NewConcurrentQueue(limit, jobs...) returned; nils: the ids of    *)
+(*                           those positions of the list that hold a nil func                *)
+(*   call enq(c, jobs, nils) client c calls Enqueue(jobs...); nils as above                  *)
 (*   ret  enq(c, q, r)       ... it returned (queued, running) = (q, r)                      *)
 (*   enter(job) / leave(job) the job function is invoked / returns                           *)
 (*   call waitidle / ret waitidle(res)                                                       *)
@@ -32,6 +33,25 @@
 (*     finished": jobs whose Enqueue (or the constructor) had returned before the WaitIdle   *)
 (*     call started must have left their function.  Other results of WaitIdle, the result    *)
 (*     of WatchState, and whether/when they return at all are not constrained by C18.        *)
+(*  I6 nil jobs.  A nil func is a legal job (the worker skips the call); it has an id like    *)
+(*     every other job but there is no user code, hence no enter/leave and nothing at the    *)
+(*     API that tells when a worker has taken it.  The statement does not mention nil jobs;  *)
+(*     the weaker reading is taken everywhere:                                               *)
+(*     - "runs every enqueued job exactly once" (Twice, Lost) speaks about non-nil jobs      *)
+(*       only; a nil job is never "lost" and nothing is demanded about it.  But a nil job    *)
+(*       does not excuse anything either: a non-nil job behind it must still run (Lost at    *)
+(*       quiet / final is evaluated over all non-nil jobs handed over).                      *)
+(*     - "never more than n executing" counts jobs inside their function: a nil job never    *)
+(*       counts (although it occupies a worker in the code for one critical section).        *)
+(*     - "n=1 runs them in enqueue order" is order among the non-nil jobs; nil jobs are      *)
+(*       transparent (a predecessor that is nil is never waited for).                        *)
+(*     - "every job enqueued before it was called has finished": a nil job is finished once  *)
+(*       a worker has taken it, which is not observable -- so a nil job in the snapshot is   *)
+(*       counted as finished from the start (never the reason for IdleEarly).                *)
+(*     - the pairs (queued, running) are judged exactly as before (Pair): they are numbers   *)
+(*       returned by the API, whatever kind of job is behind them.  The monitor does not     *)
+(*       relate the numbers to its own job sets (the statement does not).                    *)
+(*     An enter event of a job that was handed over as nil is a harness error.               *)
 EXTENDS Naturals, FiniteSets, Sequences, TLC
 
 VARIABLES
@@ -42,19 +62,20 @@ VARIABLES
     runc,     \* job -> number of invocations
     active,   \* jobs inside their function
     fin,      \* jobs that have returned
+    nilj,     \* jobs that were handed over as nil funcs (I6)
     wi,       \* "none" | "open": a WaitIdle call is in flight
     wiSnap,   \* enqd at the time of the WaitIdle call
     bad
 
-pvars == <<limit, enqd, pend, pre, runc, active, fin, wi, wiSnap, bad>>
+pvars == <<limit, enqd, pend, pre, runc, active, fin, nilj, wi, wiSnap, bad>>
 
 PInit ==
     /\ limit = 0 /\ enqd = {} /\ pend = <<>> /\ pre = <<>> /\ runc = <<>>
-    /\ active = {} /\ fin = {} /\ wi = "none" /\ wiSnap = {} /\ bad = {}
+    /\ active = {} /\ fin = {} /\ nilj = {} /\ wi = "none" /\ wiSnap = {} /\ bad = {}
 
 PReset ==
     /\ limit' = 0 /\ enqd' = {} /\ pend' = <<>> /\ pre' = <<>> /\ runc' = <<>>
-    /\ active' = {} /\ fin' = {} /\ wi' = "none" /\ wiSnap' = {} /\ bad' = {}
+    /\ active' = {} /\ fin' = {} /\ nilj' = {} /\ wi' = "none" /\ wiSnap' = {} /\ bad' = {}
 
 SeqSet(s) == {s[i] : i \in 1..Len(s)}
 Earlier(s, i) == {s[k] : k \in 1..(i-1)}
@@ -65,79 +86,84 @@ PreOf(jobs, base) == [j \in SeqSet(jobs) |-> base \cup Earlier(jobs, CHOOSE i \i
 Fresh(jobs) == /\ SeqSet(jobs) \cap Known = {}
                /\ Cardinality(SeqSet(jobs)) = Len(jobs)
 
-PNew(lim, jobs) ==
+\* nils: the set of ids (a subset of the ids in jobs) whose func is nil
+PNew(lim, jobs, nils) ==
     /\ limit' = lim
     /\ enqd' = SeqSet(jobs)
     /\ pre' = PreOf(jobs, {})
     /\ runc' = [j \in SeqSet(jobs) |-> 0]
-    /\ bad' = bad \cup (IF Fresh(jobs) THEN {} ELSE {"Harness"})
+    /\ nilj' = nils
+    /\ bad' = bad \cup (IF Fresh(jobs) /\ nils \subseteq SeqSet(jobs) THEN {} ELSE {"Harness"})
     /\ UNCHANGED <<pend, active, fin, wi, wiSnap>>
 
-PCallEnq(c, jobs) ==
+PCallEnq(c, jobs, nils) ==
     /\ pend' = (c :> jobs) @@ pend
     /\ pre' = PreOf(jobs, enqd) @@ pre
     /\ runc' = [j \in SeqSet(jobs) |-> 0] @@ runc
-    /\ bad' = bad \cup (IF Fresh(jobs) /\ (c \notin DOMAIN pend \/ pend[c] = <<>>) THEN {} ELSE {"Harness"})
+    /\ nilj' = nilj \cup nils
+    /\ bad' = bad \cup (IF Fresh(jobs) /\ nils \subseteq SeqSet(jobs) /\ (c \notin DOMAIN pend \/ pend[c] = <<>>) THEN {} ELSE {"Harness"})
     /\ UNCHANGED <<limit, enqd, active, fin, wi, wiSnap>>
 
 PairBad(q, r) == IF limit > 0 /\ q > 0 /\ r # limit THEN {"Pair"} ELSE {}
 
 PRetEnq(c, q, r) ==
     IF c \notin DOMAIN pend
-    THEN /\ bad' = bad \cup {"Harness"} /\ UNCHANGED <<limit, enqd, pend, pre, runc, active, fin, wi, wiSnap>>
+    THEN /\ bad' = bad \cup {"Harness"} /\ UNCHANGED <<limit, enqd, pend, pre, runc, active, fin, nilj, wi, wiSnap>>
     ELSE
     /\ enqd' = enqd \cup SeqSet(pend[c])
     /\ pend' = [pend EXCEPT ![c] = <<>>]
     /\ bad' = bad \cup PairBad(q, r)
-    /\ UNCHANGED <<limit, pre, runc, active, fin, wi, wiSnap>>
+    /\ UNCHANGED <<limit, pre, runc, active, fin, nilj, wi, wiSnap>>
 
+\* (a nil job has no function that could be entered: I6)
 PEnter(j) ==
-    IF j \notin Known
-    THEN /\ bad' = bad \cup {"Harness"} /\ UNCHANGED <<limit, enqd, pend, pre, runc, active, fin, wi, wiSnap>>
+    IF j \notin Known \/ j \in nilj
+    THEN /\ bad' = bad \cup {"Harness"} /\ UNCHANGED <<limit, enqd, pend, pre, runc, active, fin, nilj, wi, wiSnap>>
     ELSE
     /\ runc' = [runc EXCEPT ![j] = @ + 1]
     /\ active' = active \cup {j}
     /\ bad' = bad
         \cup (IF runc[j] >= 1 THEN {"Twice"} ELSE {})
         \cup (IF limit > 0 /\ Cardinality(active \cup {j}) > limit THEN {"Limit"} ELSE {})
-        \cup (IF limit = 1 /\ \E k \in pre[j] : runc[k] = 0 THEN {"Order"} ELSE {})
-    /\ UNCHANGED <<limit, enqd, pend, pre, fin, wi, wiSnap>>
+        \cup (IF limit = 1 /\ \E k \in pre[j] \ nilj : runc[k] = 0 THEN {"Order"} ELSE {})
+    /\ UNCHANGED <<limit, enqd, pend, pre, fin, nilj, wi, wiSnap>>
 
 PLeave(j) ==
     /\ active' = active \ {j}
     /\ fin' = fin \cup {j}
     /\ bad' = bad \cup (IF j \in active THEN {} ELSE {"Harness"})
-    /\ UNCHANGED <<limit, enqd, pend, pre, runc, wi, wiSnap>>
+    /\ UNCHANGED <<limit, enqd, pend, pre, runc, nilj, wi, wiSnap>>
 
 PCallWI ==
     /\ wi' = "open" /\ wiSnap' = enqd
     /\ bad' = bad \cup (IF wi = "open" THEN {"Harness"} ELSE {})
-    /\ UNCHANGED <<limit, enqd, pend, pre, runc, active, fin>>
+    /\ UNCHANGED <<limit, enqd, pend, pre, runc, active, fin, nilj>>
 
 PRetWI(res) ==
     /\ wi' = "none"
     /\ bad' = bad
         \cup (IF wi # "open" THEN {"Harness"} ELSE {})
-        \cup (IF res = "nil" /\ ~(wiSnap \subseteq fin) THEN {"IdleEarly"} ELSE {})
-    /\ UNCHANGED <<limit, enqd, pend, pre, runc, active, fin, wiSnap>>
+        \cup (IF res = "nil" /\ ~((wiSnap \ nilj) \subseteq fin) THEN {"IdleEarly"} ELSE {})
+    /\ UNCHANGED <<limit, enqd, pend, pre, runc, active, fin, nilj, wiSnap>>
 
 PWatch(q, r) ==
     /\ bad' = bad \cup PairBad(q, r)
-    /\ UNCHANGED <<limit, enqd, pend, pre, runc, active, fin, wi, wiSnap>>
+    /\ UNCHANGED <<limit, enqd, pend, pre, runc, active, fin, nilj, wi, wiSnap>>
 
-\* No library step possible, nothing running or about to run: a job that was handed over and
-\* has not been invoked can never run without further calls.
+\* No library step possible, nothing running or about to run: a (non-nil) job that was handed
+\* over and has not been invoked can never run without further calls.
+Unrun == {j \in enqd \ nilj : runc[j] = 0}
 QuietBad(ready) ==
-    IF active = {} /\ ready = {} /\ \E j \in enqd : runc[j] = 0 THEN {"Lost"} ELSE {}
+    IF active = {} /\ ready = {} /\ Unrun # {} THEN {"Lost"} ELSE {}
 QuietOK(ready) == QuietBad(ready) = {}
 
 PQuiet(ready) ==
     /\ bad' = bad \cup QuietBad(ready)
-    /\ UNCHANGED <<limit, enqd, pend, pre, runc, active, fin, wi, wiSnap>>
+    /\ UNCHANGED <<limit, enqd, pend, pre, runc, active, fin, nilj, wi, wiSnap>>
 
 PFinal ==
-    /\ bad' = bad \cup (IF \E j \in enqd : runc[j] = 0 THEN {"Lost"} ELSE {})
-    /\ UNCHANGED <<limit, enqd, pend, pre, runc, active, fin, wi, wiSnap>>
+    /\ bad' = bad \cup (IF Unrun # {} THEN {"Lost"} ELSE {})
+    /\ UNCHANGED <<limit, enqd, pend, pre, runc, active, fin, nilj, wi, wiSnap>>
 
 -----------------------------------------------------------------------------
 Safe_C18 == bad \ {"Harness", "Unexplained"} = {}
